@@ -178,6 +178,8 @@ def run(ctx, res):
         if key not in used_aud:
             res.info.append("audited entry not used on this tree: %s | %s" % key)
     res.extra["obligations_by_class"] = classes
+    res.extra["obligations"] = total
+    res.extra["discharged"] = total - classes.get("UNPROVEN", 0)
     res.extra["ledger"] = ledger[:400]
     res.obligations = total
     res.discharged = total - classes.get("UNPROVEN", 0)
